@@ -309,8 +309,38 @@ def explicit_catalogue():
     return out
 
 
+EDC_XSD = f'''<xs:schema xmlns:xs="{M.XS}">
+<xs:complexType name="T"><xs:sequence/></xs:complexType>
+<xs:complexType name="T2"><xs:complexContent><xs:extension base="T"><xs:attribute name="x"/></xs:extension></xs:complexContent></xs:complexType>
+<xs:element name="H" type="T"/><xs:element name="S" type="T" substitutionGroup="H"/><xs:element name="S2" type="T2" substitutionGroup="S"/>
+<xs:element name="r"><xs:complexType><xs:sequence>MODEL</xs:sequence></xs:complexType></xs:element></xs:schema>'''
+# Element Declarations Consistent: particles that can match one name must agree on its type. H, S (substitutes H) and
+# S2 (substitutes S, with a type derived from S's) are global declarations: wherever two particles of a model can match
+# one of these names they resolve to the same declaration, so the models below are consistent; a separator element keeps
+# them deterministic
+EDC_MODELS = [('<xs:element ref="S"/><xs:element name="sep"/><xs:element ref="H"/>', True),
+              ('<xs:element ref="H"/><xs:element name="sep"/><xs:element ref="S"/>', True),
+              ('<xs:element ref="S2"/><xs:element name="sep"/><xs:element ref="H"/>', True),
+              ('<xs:element ref="S"/><xs:element name="sep"/><xs:element ref="S2"/>', True)]
+
+
 def run_explicit(res):
     xmlschema = env.activate_repo()
+    for model, want in EDC_MODELS:
+        for version, cls in (('1.0', xmlschema.XMLSchema10), ('1.1', xmlschema.XMLSchema11)):
+            text = EDC_XSD.replace('MODEL', model)
+            try:
+                cls(text)
+                built, why = True, ''
+            except xmlschema.XMLSchemaException as e:
+                built, why = False, str(e)[:160]
+            res.evaluations += 1
+            res.count('explicit:edc_models')
+            if built != want:
+                res.violation('edc-false-alarm:substitution-members-with-derived-types' if not built else 'edc-missed',
+                              {'explicit': model, 'version': version, 'xsd': text}, f'{version}: {model}: built={built} {why}')
+            else:
+                res.count('explicit:agree')
     for label, text, clash in explicit_catalogue():
         for version, cls in (('1.0', xmlschema.XMLSchema10), ('1.1', xmlschema.XMLSchema11)):
             want_det = not clash or version == '1.1'    # 1.1: an element beside a wildcard is never a clash
